@@ -165,6 +165,22 @@ def run(ctx):
                 t.failed("a second parse of the same string is affected by edits to the first result", string=s,
                          parsed=repr(again), original=repr(rels))
                 break
+    if not t.fail:
+        # sizes no small example reaches: 600 comma-separated relations of up to 6 alternatives each (about 40 kB of text)
+        rng2 = random.Random(13)
+        rels = [[gen_atom(rng2, PR) for _ in range(rng2.randint(1, 6))] for _ in range(600)]
+        try:
+            s = PR.str(rels)
+            with warnings.catch_warnings(record=True) as w:
+                warnings.simplefilter("always")
+                back = PR.parse_relations(s)
+            t.case(key="large: 600 relations")
+            if w or back != rels or PR.str(back) != s:
+                first = next((i for i, (x, y) in enumerate(zip(back, rels)) if x != y), min(len(back), len(rels)))
+                t.failed("a field of 600 relations is not parsed back to the formatted structure", length=len(s), warnings=len(w),
+                         relations_parsed=len(back), first_difference_at_relation=first)
+        except Exception as e:
+            t.failed("a field of 600 relations raised %r" % (e,))
     t.done()
     ctx.level = "other"
     ctx.explanation = ("PROVED for all formatted atoms (SMT on the real __dep_RE): the atom matches, and each named group captures exactly "
